@@ -136,7 +136,7 @@ func (w *World) Observe() J {
 		debts = append(debts, J{"addr": d.Address, "borrowed": intStr(d.Borrowed), "paid": intStr(d.InterestPaid), "stacked": intStr(d.InterestStacked)})
 	}
 	sort.Slice(debts, func(i, j int) bool { return debts[i]["addr"].(string) < debts[j]["addr"].(string) })
-	st["stablestake"] = J{"totalValue": intStr(sp.TotalValue), "rate": decRaw(sp.RedemptionRate), "denom": app.StablestakeKeeper.GetDepositDenom(ctx), "debts": debts,
+	st["stablestake"] = J{"totalValue": intStr(sp.TotalValue), "rate": decRaw(sp.RedemptionRate), "liveRate": decRaw(app.StablestakeKeeper.GetRedemptionRate(ctx)), "denom": app.StablestakeKeeper.GetDepositDenom(ctx), "debts": debts,
 		"interestRate": decRaw(sp.InterestRate)}
 
 	// leveragelp
